@@ -16,6 +16,7 @@ from .scalar import is_sym, s_bool, s_not, s_any, s_all, eval_cell, to_bool_expr
 
 ROOT = os.path.dirname(os.path.dirname(os.path.abspath(__file__)))
 SOLVER_TIMEOUT_MS = int(os.environ.get("VERIF_SOLVER_TIMEOUT_MS", "300000"))
+REPLAY_TRIES = int(os.environ.get("VERIF_REPLAY_TRIES", "24"))
 
 
 class Harness:
@@ -364,6 +365,26 @@ def _replay(h, eng, m, viol, res, replay_dir, prop, dec):
         failures = conc["failures"]
     except Exception as e:
         failures = [f"raises: {type(e).__name__}: {str(e)[:200]}"]
+    if not failures and hasattr(h, "pin"):
+        # the model owes its violation to the abstraction of a stubbed function: look for another input assignment on this path, still violating
+        # in the abstraction, that also fails on the real library (randomly fixed inputs, stubs pinned to their true values where possible)
+        import random
+        rng = random.Random(1234)
+        vio = z3.Or(*[_to_z3_bool(c) for _, c in viol])
+        for _ in range(REPLAY_TRIES):
+            m3 = _random_model(eng, rng, list(eng.pc) + [vio])
+            if m3 is None:
+                continue
+            m4 = _pinned(h, eng, m3, list(eng.pc), res, extra=[vio]) or m3
+            vals3 = _model_vals(m4, eng)
+            try:
+                f3 = h.concrete(vals3)["failures"]
+            except Exception as e:
+                f3 = [f"raises: {type(e).__name__}: {str(e)[:200]}"]
+            if f3:
+                m, vals, failures = m4, vals3, f3
+                labels = [l for l, c in viol if is_sym(s_bool(c)) and z3.is_true(m.eval(s_bool(c), model_completion=True))] or labels
+                break
     rec = dict(property=prop, harness=type(h).__name__, module=type(h).__module__, cfg=h.describe(), inputs=_js(vals),
                solver_labels=labels, replay_failures=failures, decisions=[_js(d) for d in dec])
     if failures:
